@@ -76,6 +76,36 @@ MUTANTS = [
     ("C16-cms5-stale-output-on-job-failure", "C16", P + "template/cms/r5/runner.sh",
      "    cmsRun analyzer_cfg.py\n", "    cmsRun analyzer_cfg.py || echo 'job failed, converting what is there'\n"),
     ("C16-atlas-make-ignored", "C16", P + "template/atlas/r21/runner.sh", "   make\nelse", "   make || true\nelse"),
+    # ---------------- C17
+    ("C17-swallow-docker-exception", "C17", P + "common/local_dataset.py",
+     "                    self._docker_image,\n                )\n                raise e\n",
+     "                    self._docker_image,\n                )\n"),
+    ("C17-ignore-md-image", "C17", P + "common/local_dataset.py",
+     "            if len(md) > 0:\n                docker_image = md[-1].image\n", "            if len(md) > 1:\n                docker_image = md[-1].image\n"),
+    ("C17-full-host-paths", "C17", P + "common/local_dataset.py",
+     'flist_out.write(f"/data/{datafile}\\n")', 'flist_out.write(f"{u}\\n")'),
+    ("C17-mkdtemp-no-cleanup", "C17", P + "common/local_dataset.py",
+     "        with tempfile.TemporaryDirectory() as local_run_dir_p:\n\n            # Setup the local directory and make sure it is writeable",
+     "        for local_run_dir_p in [tempfile.mkdtemp()]:\n\n            # Setup the local directory and make sure it is writeable"),
+    ("C17-data-rw", "C17", P + "common/local_dataset.py",
+     '(datafile_dir, "/data/", "ro"),', '(datafile_dir, "/data/", "rw"),'),
+    ("C17-no-same-dir-check", "C17", P + "common/local_dataset.py",
+     "                        if ds_path != datafile_dir:\n", "                        if False:\n"),
+    ("C17-return-temp-path", "C17", P + "common/local_dataset.py",
+     "    shutil.copy(current_path, new_path)\n    return new_path", "    shutil.copy(current_path, new_path)\n    return current_path"),
+    ("C17-sorted-files", "C17", P + "common/local_dataset.py",
+     "                for u in self.files:\n", "                for u in sorted(self.files):\n"),
+    ("C17-tag-dropped-with-md", "C17", P + "common/local_dataset.py",
+     "                    docker_image,\n                    [f\"/scripts/{f_spec.main_script}\"],",
+     "                    docker_image if len(md) == 0 else docker_image.split(':')[0],\n                    [f\"/scripts/{f_spec.main_script}\"],"),
+    ("C17-no-cache-volume", "C17", P + "atlas/xaod/local_dataset.py",
+     "        return [docker_volume_info(docker_name='atlas_xaod_calibration_cache', mount_point='/xaod_calibration_cache')]", "        return []"),
+    ("C17-missing-file-late", "C17", P + "common/local_dataset.py",
+     "        for f in self.files:\n            if not f.exists():\n", "        for f in self.files[:1]:\n            if not f.exists():\n"),
+    ("C17-strict-decode-again", "C17", P + "common/local_dataset.py",
+     "                        output += f\"{stream_content.decode(errors='replace')}\"", "                        output += f\"{stream_content.decode()}\""),
+    ("C17-assert-tempdir-again", "C17", P + "common/local_dataset.py",
+     "            else Path(tempfile.gettempdir())", "            else Path(tempfile.tempdir)"),
 ]
 
 
